@@ -46,6 +46,10 @@ def encode_alignment(al, dissim, catid):
     return out
 
 
+def tuples_of(al):
+    return [[(a, None if u is None else (u.segment.start, u.segment.end, u.annotation)) for a, u in ua.n_tuple] for ua in al.unitary_alignments]
+
+
 def gk_line(al, dissim, category, catid):
     return [210] + q(dissim.alpha) + q(dissim.delta_empty) + ([0] if category is None else [1, catid(category)]) + encode_alignment(al, dissim, catid)
 
@@ -108,10 +112,11 @@ def run(rep, tier, seed, pa):
                                   "gamma_k_disorder raised %r" % (e,))
                     continue
                 lines.append(gk_line(al, dissim, category, catid))
-                metas.append((dict(case, spec=spec_used), kind, category, v, al))
+                metas.append((dict(case, spec=spec_used, first_spec=case["spec"], tuples_now=tuples_of(al)), kind, category, v, al))
         # the SAME alignment object re-aligned in place through the public n_tuple setter (a unit moved from one unitary alignment to a free slot
         # of another: still a partition, other numbers of real units) and evaluated again: the value must follow the alignment as it is now
         ral = als[2][1]
+        ral_before = tuples_of(ral)
         moved = False
         uas = list(ral.unitary_alignments)
         for i, ua in enumerate(uas):
@@ -136,7 +141,7 @@ def run(rep, tier, seed, pa):
             for category in [None] + labels:
                 v = ral.gamma_k_disorder(dissim, category)
                 lines.append(gk_line(ral, dissim, category, catid))
-                metas.append((dict(case), "random/re-aligned-in-place", category, v, ral))
+                metas.append((dict(case, tuples_before=ral_before, tuples_now=tuples_of(ral)), "random/re-aligned-in-place", category, v, ral))
     outs = run_model(lines)
     for (case, kind, category, v, al), out in zip(metas, outs):
         ok = isinstance(out, list) and len(out) == 3
@@ -150,7 +155,7 @@ def run(rep, tier, seed, pa):
                  nontrivial_key=(repr(case["units"]), case["spec"], kind, category) if (real and has_empty) else None)
         if not ok or not close(v, model, TAU2):
             rep.violation("gamma_k_disorder", {"units": case["units"], "dissim": case["spec"], "alignment_kind": kind, "category": category,
-                                               "tuples": [[(a, str(u)) for a, u in ua.n_tuple] for ua in al.unitary_alignments],
+                                               "first_dissim": case.get("first_spec"), "tuples": case.get("tuples_now"), "tuples_before": case.get("tuples_before"),
                                                "library": float(v), "model": str(model)},
                           "gamma_k_disorder(%r) = %r but the weighted-mean definition gives %r" % (category, float(v), float(model) if ok else out))
     # refused for dissimilarities that are not the combined one
@@ -216,7 +221,12 @@ def run(rep, tier, seed, pa):
 
 
 def replay(rep, data, pa):
+    """rebuilds the recorded alignment (through the same history: evaluated under the first dissimilarity, re-aligned in place) and compares
+    gamma_k_disorder with the model again; then the best and soft alignments of the recorded continuum for every category"""
     ac.install_backend_hooks()
+    from pyannote.core import Segment
+    from pygamma_agreement.alignment import Alignment, UnitaryAlignment
+    Unit = pa.continuum.Unit
     units = [[tuple(u) for u in us] for us in data["units"]]
     spec = tuple(data["dissim"])
     cont = gen.build_continuum(pa, units)
@@ -224,12 +234,32 @@ def replay(rep, data, pa):
     labels = sorted(set(l for us in units for (_, _, l) in us))
     ids = {l: i for i, l in enumerate(labels + ["__absent__"])}
     ok = True
+
+    def mk(tuples):
+        return [[(a, None if u is None else Unit(Segment(u[0], u[1]), u[2])) for a, u in t] for t in tuples]
+
+    def compare(al, d, category, what):
+        v = al.gamma_k_disorder(d, category)
+        out = run_model([gk_line(al, d, category, lambda l: ids[l])])[0]
+        m = Fraction(out[0], out[1])
+        if not close(v, m, TAU2):
+            print("  %s, category %r: library %r model %r" % (what, category, float(v), float(m)))
+            return False
+        return True
+    if data.get("tuples"):
+        start = data.get("tuples_before") or data["tuples"]
+        al = Alignment([UnitaryAlignment(t) for t in mk(start)], cont)
+        if data.get("first_dissim") and tuple(data["first_dissim"]) != spec:
+            first = gen.make_dissim(pa, tuple(data["first_dissim"]))
+            for category in [None] + labels:
+                al.gamma_k_disorder(first, category)          # the earlier calls of the history
+        if data.get("tuples_before"):
+            for category in [None] + labels:
+                al.gamma_k_disorder(dissim, category)         # queried once before being re-aligned in place
+            for ua, t in zip(al.unitary_alignments, mk(data["tuples"])):
+                ua.n_tuple = t
+        ok = compare(al, dissim, data.get("category"), "recorded alignment (%s)" % data.get("alignment_kind")) and ok
     for al in (cont.get_best_alignment(dissim), cont.get_best_soft_alignment(dissim)):
         for category in [None] + labels + ["__absent__"]:
-            v = al.gamma_k_disorder(dissim, category)
-            out = run_model([gk_line(al, dissim, category, lambda l: ids[l])])[0]
-            m = Fraction(out[0], out[1])
-            if not close(v, m, TAU2):
-                print("  category %r: library %r model %r" % (category, float(v), float(m)))
-                ok = False
+            ok = compare(al, dissim, category, "best / soft alignment") and ok
     return ok
